@@ -7,6 +7,8 @@ import (
 	"fmt"
 	"math"
 	"sort"
+	"sync"
+	"sync/atomic"
 	"time"
 
 	"github.com/gotd/td/crypto"
@@ -81,6 +83,102 @@ func why(w *window, id int64) string {
 		}
 	}
 	return "lower than all stored ids of a full window"
+}
+
+// ---------- (a') concurrent deliveries ----------
+// readLoop handles every frame in its own goroutine, so a frame replayed right after the
+// original is checked concurrently with it: Consume must behave as one atomic step.
+
+type concCase struct {
+	N       int     `json:"conc_n"`
+	Preload []int64 `json:"preload"`
+	Deliver []int64 `json:"deliver"` // one goroutine per entry, released together
+	Tries   int     `json:"tries"`   // the schedule is not controlled: bounded retries
+}
+
+// runConc returns a description of the first violation found in at most Tries attempts.
+func runConc(cc concCase) string {
+	for try := 0; try < cc.Tries; try++ {
+		b := proto.NewMessageIDBuf(cc.N)
+		for _, id := range cc.Preload {
+			b.Consume(id)
+		}
+		res := make([]bool, len(cc.Deliver))
+		var ready, done sync.WaitGroup
+		var goFlag atomic.Bool
+		ready.Add(len(cc.Deliver))
+		done.Add(len(cc.Deliver))
+		for i, id := range cc.Deliver {
+			go func(i int, id int64) {
+				defer done.Done()
+				ready.Done()
+				for !goFlag.Load() {
+				}
+				res[i] = b.Consume(id)
+			}(i, id)
+		}
+		ready.Wait()
+		goFlag.Store(true)
+		done.Wait()
+		acc := map[int64]int{}
+		for i, id := range cc.Deliver {
+			if res[i] {
+				acc[id]++
+			}
+		}
+		for id, n := range acc {
+			if n > 1 {
+				return fmt.Sprintf("MessageIDBuf(%d): id %d delivered %d times concurrently was accepted %d times (attempt %d)", cc.N, id, count(cc.Deliver, id), n, try)
+			}
+		}
+		// every id accepted in the concurrent phase must now be stored (the window is large enough)
+		for id := range acc {
+			if b.Consume(id) {
+				return fmt.Sprintf("MessageIDBuf(%d): id %d was accepted concurrently with %v but is not remembered: a later replay of it is accepted (attempt %d)", cc.N, id, cc.Deliver, try)
+			}
+		}
+	}
+	return ""
+}
+
+func count(l []int64, x int64) int {
+	n := 0
+	for _, v := range l {
+		if v == x {
+			n++
+		}
+	}
+	return n
+}
+
+// runConcConn delivers the same valid frame from two goroutines to a real Conn; the handler
+// must see it at most once.
+func runConcConn(seed uint64, tries int) string {
+	env := mtx.NewEnv(hx.NewRand(seed), mtx.Config{Session: 77, Salt: 1})
+	defer env.Close()
+	for try := 0; try < tries; try++ {
+		body := []byte{0xc3, 0xb2, 0xa1, 0x7f, 0, 0, 0, 0}
+		id := env.ServerMsgID(false)
+		raw, _ := mtx.Seal(env.Key, mtx.Header{Salt: 1, Session: 77, MsgID: id}, append(body, make([]byte, 24)...), 8, nil)
+		before := env.Handler.Count()
+		var done sync.WaitGroup
+		var goFlag atomic.Bool
+		for g := 0; g < 3; g++ {
+			done.Add(1)
+			go func() {
+				defer done.Done()
+				for !goFlag.Load() {
+				}
+				_ = env.Deliver(raw)
+			}()
+		}
+		goFlag.Store(true)
+		done.Wait()
+		if got := env.Handler.Count() - before; got != 1 {
+			return fmt.Sprintf("a frame with msg_id %d delivered 3 times concurrently reached the handler %d times (attempt %d)", id, got, try)
+		}
+	}
+	return ""
 }
 
 // ---------- (b) the pipeline ----------
@@ -406,12 +504,41 @@ func main() {
 		}
 	}
 
+	concRun := func(kind string, cc concCase) {
+		c.Obs.Evaluations++
+		c.Count("conc:" + kind)
+		var msg string
+		if !mtx.Watchdog(30*time.Second, func() { msg = runConc(cc) }, nil) {
+			msg = "concurrent Consume calls did not finish within 30 s"
+		}
+		if msg != "" {
+			c.Violate("concurrent-replay-accepted", msg, -1, 0, cc)
+		}
+	}
 	var rp struct {
 		N   int     `json:"n"`
 		IDs []int64 `json:"ids"`
 		pipeCase
+		concCase
+		ConnTries int `json:"conn_tries"`
 	}
 	if c.LoadReplay(&rp) {
+		if rp.ConnTries > 0 {
+			msg := runConcConn(rp.Seed, rp.ConnTries)
+			fmt.Printf("replay: concurrent delivery on a Conn: %q\n", msg)
+			if msg != "" {
+				c.Violate("concurrent-replay-accepted", msg, -1, 0, map[string]interface{}{"env_seed": rp.Seed, "conn_tries": rp.ConnTries})
+			}
+			c.Finish()
+			return
+		}
+		if len(rp.Deliver) > 0 {
+			msg := runConc(rp.concCase)
+			fmt.Printf("replay: concurrent Consume %v on MessageIDBuf(%d): %q\n", rp.Deliver, rp.concCase.N, msg)
+			concRun("replay", rp.concCase)
+			c.Finish()
+			return
+		}
 		if len(rp.Frames) > 0 {
 			o := runPipe(rp.pipeCase)
 			sig, desc := oraclePipe(rp.pipeCase, o)
@@ -519,6 +646,40 @@ func main() {
 			ids[j] = int64(c.Rng.Range(-3, 4))
 		}
 		bufCase("malformed", c.Rng.Range(1, 4), ids, true)
+	}
+	// concurrent deliveries (one goroutine per frame in readLoop): the same id several times, and
+	// distinct fresh ids, against windows of several sizes and fill levels
+	for i := 0; i < c.N(16, 600); i++ {
+		n := []int{4, 16, 100}[c.Rng.Intn(3)]
+		cc := concCase{N: n, Tries: c.N(150, 2000)}
+		for j, p := 0, c.Rng.Intn(n-3); j < p; j++ {
+			cc.Preload = append(cc.Preload, int64(1000+4*j+1))
+		}
+		g := c.Rng.Range(2, 3)
+		x := int64(50000 + 4*c.Rng.Intn(1000) + 1)
+		for j := 0; j < g; j++ {
+			if c.Rng.Bool() {
+				cc.Deliver = append(cc.Deliver, x) // the same id again
+			} else {
+				cc.Deliver = append(cc.Deliver, x+int64(4*(j+1)))
+			}
+		}
+		if len(cc.Deliver) == 2 && i%2 == 0 {
+			cc.Deliver[1] = cc.Deliver[0]
+		}
+		concRun(fmt.Sprintf("N=%d", n), cc)
+	}
+	{
+		c.Obs.Evaluations++
+		c.Count("conc:conn")
+		seed, tries := c.Rng.U64(), c.N(150, 5000)
+		var msg string
+		if !mtx.Watchdog(60*time.Second, func() { msg = runConcConn(seed, tries) }, nil) {
+			msg = "concurrent deliveries to a Conn did not finish within 60 s"
+		}
+		if msg != "" {
+			c.Violate("concurrent-replay-accepted", msg, -1, 0, map[string]interface{}{"env_seed": seed, "conn_tries": tries})
+		}
 	}
 	// the pipeline on a real Conn
 	for i := 0; i < c.N(70, 2500); i++ {
